@@ -265,6 +265,54 @@ pub fn cmd_codec(args: &[String]) {
             }
         }
     }
+    // the byte-string wire forms (from_bytes / from_sealed_bytes), for every container the fixed-length part can be held in -
+    // one with a length of its own (stack array) and one without (Vec): an encoding shorter than the fixed part is refused,
+    // any other decodes to exactly (fixed part, rest) and re-encodes to itself
+    {
+        use dryoc::dryocsecretbox::DryocSecretBox as SB;
+        use dryoc::dryocbox::DryocBox as DB;
+        use dryoc::sign::SignedMessage as SM;
+        use dryoc::types::StackByteArray as St;
+        macro_rules! wire_form {
+            ($name:expr, $ovh:expr, $decode:expr) => {
+                for n in 0..=($ovh + 3usize) {
+                    rep.evaluations += 1;
+                    let enc: Vec<u8> = (0..n).map(|i| (i as u8).wrapping_mul(13) | 1).collect();
+                    let r: Result<(Vec<u8>, Vec<u8>), String> = $decode(&enc);
+                    match r {
+                        Ok((_fixed, _rest)) if n < $ovh => rep.fail(&format!("{}: decodes an encoding shorter than its fixed part", $name), json!({"len": n, "fixed": $ovh})),
+                        Ok((fixed, rest)) => { if fixed != enc[..$ovh] || rest != enc[$ovh..] { rep.fail(&format!("{}: decoded parts are not (fixed part, rest)", $name), json!({"len": n})); } }
+                        Err(_) if n < $ovh => {}
+                        Err(e) => rep.fail(&format!("{}: rejects an encoding of sufficient length", $name), json!({"len": n, "err": e})),
+                    }
+                }
+            };
+        }
+        wire_form!("DryocSecretBox<Stack,Vec>::from_bytes", 16, |e: &[u8]| SB::<St<16>, Vec<u8>>::from_bytes(e).map(|b| { let (t, d) = b.into_parts(); (t.to_vec(), d) }).map_err(|x| format!("{:?}", x)));
+        wire_form!("DryocSecretBox<Vec,Vec>::from_bytes", 16, |e: &[u8]| SB::<Vec<u8>, Vec<u8>>::from_bytes(e).map(|b| b.into_parts()).map_err(|x| format!("{:?}", x)));
+        wire_form!("DryocBox<Stack,Stack,Vec>::from_bytes", 16, |e: &[u8]| DB::<St<32>, St<16>, Vec<u8>>::from_bytes(e).map(|b| { let (t, d, _) = b.into_parts(); (t.to_vec(), d) }).map_err(|x| format!("{:?}", x)));
+        wire_form!("DryocBox<Vec,Vec,Vec>::from_bytes", 16, |e: &[u8]| DB::<Vec<u8>, Vec<u8>, Vec<u8>>::from_bytes(e).map(|b| { let (t, d, _) = b.into_parts(); (t, d) }).map_err(|x| format!("{:?}", x)));
+        wire_form!("DryocBox<Stack,Stack,Vec>::from_sealed_bytes", 48, |e: &[u8]| DB::<St<32>, St<16>, Vec<u8>>::from_sealed_bytes(e).map(|b| { let (t, d, k) = b.into_parts(); ([k.unwrap().to_vec(), t.to_vec()].concat(), d) }).map_err(|x| format!("{:?}", x)));
+        wire_form!("DryocBox<Vec,Vec,Vec>::from_sealed_bytes", 48, |e: &[u8]| DB::<Vec<u8>, Vec<u8>, Vec<u8>>::from_sealed_bytes(e).map(|b| { let (t, d, k) = b.into_parts(); ([k.unwrap(), t].concat(), d) }).map_err(|x| format!("{:?}", x)));
+        wire_form!("SignedMessage<Stack,Vec>::from_bytes", 64, |e: &[u8]| SM::<St<64>, Vec<u8>>::from_bytes(e).map(|b| { let (t, d) = b.into_parts(); (t.to_vec(), d) }).map_err(|x| format!("{:?}", x)));
+        wire_form!("SignedMessage<Vec,Vec>::from_bytes", 64, |e: &[u8]| SM::<Vec<u8>, Vec<u8>>::from_bytes(e).map(|b| b.into_parts()).map_err(|x| format!("{:?}", x)));
+    }
+    // password-hash objects over the whole cost domain (no hashing: from_parts): to_string then from_string gives the same
+    // configuration back, at and beyond the 4 GiB mark where a 32-bit byte count wraps
+    {
+        use dryoc::pwhash::{Config, PwHash};
+        for &(ops, mem) in [(1u64, 8192usize), (3, 4 * 1024 * 1024 * 1024 - 1024), (3, 4 * 1024 * 1024 * 1024), (4, 5 * 1024 * 1024 * 1024), (u32::MAX as u64, (u32::MAX as usize) * 1024), (2, 64 * 1024 * 1024)].iter() {
+            rep.evaluations += 1;
+            let cfg = Config::interactive().with_opslimit(ops).with_memlimit(mem).with_salt_length(16).with_hash_length(32);
+            let p: PwHash<Vec<u8>, Vec<u8>> = PwHash::from_parts(vec![9u8; 32], vec![7u8; 16], cfg);
+            let st = p.to_string();
+            match catch(|| PwHash::<Vec<u8>, Vec<u8>>::from_string(&st)) {
+                Ok(Ok(q)) => { if format!("{:?}", q) != format!("{:?}", p) || q.to_string() != st { rep.fail("PwHash: to_string then from_string yields a different object", json!({"opslimit": ops.to_string(), "memlimit": mem.to_string(), "string": st, "again": q.to_string()})); } }
+                Ok(Err(e)) => rep.fail("PwHash: from_string rejects to_string output", json!({"string": st, "err": format!("{:?}", e)})),
+                Err(pn) => rep.fail("PwHash: from_string panics on to_string output", json!({"string": st, "panic": pn})),
+            }
+        }
+    }
     // raw constructors: with_data keeps the bytes and starts from an all-zero tag; with_data_and_mac keeps both
     for len in [0usize, 1, 16, 17, 255, 4097] {
         let body = rng.bytes(len);
